@@ -68,7 +68,8 @@ def run(tier):
     elif not r['rejects']:
         raise vlib.MachineryError('no accepted sequence available for the binding self-test')
     c.assumptions += ['sequences are fed to MoleculeIterator as an iterable of (R1, R2) tuples in the order the mate-pair iterator '
-                      'releases a coordinate-sorted BAM; "fragments shorter than the molecule cache radius" is read as '
+                      'releases a coordinate-sorted BAM (20/300 sequences per tier go through a real BAM file instead; their emission '
+                      'times cannot be observed, so NoPremature is vacuous for them); "fragments shorter than the molecule cache radius" is read as '
                       '2*(span + assignment_radius) <= cache_size, the region in which TLC verified the design']
     keys = set((e['kind'], e['hd'], e['radius'] > 0, e['cache'], e['readlen'] < 10 ** 6, len(e['frags']),
                 tuple(sorted(len(m['ids']) for m in e['runs'][0]['emits']))) for e in events)
